@@ -11,6 +11,8 @@ partial def pyOfJ : J → Option PyVal
   | J.l [J.n 4] => some .pynone
   | J.l [J.n 5] => some .str
   | J.l [J.n 6] => some .other
+  | J.l [J.n 7] => some .nan
+  | J.l [J.n 8] => some .inf
   | _ => none
 
 def errCode : SErr → Int
@@ -32,6 +34,11 @@ def c19Mul (j : J) : Option J := do
   let (S, k) ← (fromJ j : Option (Scheme × Option Int))
   pure (resJ (mulScheme S k))
 
+/-- multiplication by NaN / ±inf -/
+def c19MulNonFinite (j : J) : Option J := do
+  let S ← (fromJ j : Option Scheme)
+  pure (resJ (mulSchemeArg S .nonFinite))
+
 def c19Equiv (j : J) : Option J := do
   let (S1, S2) ← (fromJ j : Option (Scheme × Scheme))
   pure (J.l [toJ (isEquivalentTo S1 S2), toJ (isEquivalentToOnComplete S1 S2),
@@ -44,6 +51,6 @@ def c19Presets (_ : J) : Option J :=
              unifyingHalf, inducedHalf])
 
 def c19Ops : List (String × (J → Option J)) :=
-  [("c19.new", c19New), ("c19.mul", c19Mul), ("c19.equiv", c19Equiv), ("c19.presets", c19Presets)]
+  [("c19.new", c19New), ("c19.mul", c19Mul), ("c19.mulnf", c19MulNonFinite), ("c19.equiv", c19Equiv), ("c19.presets", c19Presets)]
 
 end Corankco.Driver
